@@ -17,6 +17,7 @@ def run(chk):
     a64common.rule_sibling_checks(chk, A)
     a64common.rule_shift_lossless(chk, A)
     a64common.rule_reg_type_seen(chk, A)
+    a64common.rule_q_sz_related(chk, A)
     # C14.c R-EMIT-ATOMIC on the two assemblers
     RA = "R-EMIT-ATOMIC"
     chk.rule(RA, "emit functions: success exits reset state and commit bytes, failing exits clear state first, nothing fails after "
